@@ -674,13 +674,31 @@ bool BaseKillPlugin::setxattr(
   return true;
 }
 
+namespace {
+// The counters live in xattrs anybody owning the cgroup can write (user.*).
+// Whatever text is found there, it must not take the kill (and oomd) down:
+// anything that is not a number in range counts from zero.
+int parseXattrCounter(const std::string& str) {
+  try {
+    size_t len = 0;
+    const int val = std::stoi(str, &len);
+    if (len == str.size() && val >= 0 &&
+        val < std::numeric_limits<int>::max() / 2) {
+      return val;
+    }
+  } catch (const std::exception&) {
+  }
+  return 0;
+}
+} // namespace
+
 void BaseKillPlugin::reportKillInitiationToXattr(
     const std::string& cgroupPath) {
   // Helper function that reports kill initiation to an extended attribute
   const auto reportKillHelperFunc = [this,
                                      &cgroupPath](const std::string& xattr) {
     auto prevXattrStr = getxattr(cgroupPath, xattr);
-    const int prevXattr = std::stoi(prevXattrStr != "" ? prevXattrStr : "0");
+    const int prevXattr = parseXattrCounter(prevXattrStr);
     std::string newXattrStr = std::to_string(prevXattr + 1);
 
     if (setxattr(cgroupPath, xattr, newXattrStr)) {
@@ -699,7 +717,7 @@ void BaseKillPlugin::reportKillCompletionToXattr(
   const auto reportKillHelperFunc = [this, &cgroupPath, numProcsKilled](
                                         const std::string& xattr) {
     auto prevXattrStr = getxattr(cgroupPath, xattr);
-    const int prevXattr = std::stoi(prevXattrStr != "" ? prevXattrStr : "0");
+    const int prevXattr = parseXattrCounter(prevXattrStr);
     std::string newXattrStr = std::to_string(prevXattr + numProcsKilled);
 
     if (setxattr(cgroupPath, xattr, newXattrStr)) {
